@@ -7,11 +7,11 @@ CONSTANTS
   Admissible <- MCAdmissible
   MaxVariants = 2
   MaxFields = 3
-  RichFields = 2
+  RichFields = 3
   EnumRichFields = 2
-  RankSet <- RanksQuick
+  RankSet <- RanksThorough
   EnumRankSet = {2}
-  SimpleStyles = {"unit", "tuple"}
+  SimpleStyles = {"unit", "tuple", "named"}
   MaxLawValues = 8
   Vals = {0, 1}
 INVARIANTS ImplMeetsDecl ImplMeetsProp NoneOnlyFromNaN IgnoredIrrelevant Laws
